@@ -70,6 +70,15 @@ T = {
  'C16-D': ('C16', 'LinuxSllHeader::write_to_slice: length check against LAST_INDEX with `<` (off by one) -> panic', 'target slice of exactly 15 bytes'),
  'C17-C': ('C17', 'ArpPacket::try_eth_ipv4: size checks replaced by first_chunk (accepts oversized addresses)', 'ARP packet with hln > 6 or pln > 4'),
  'C17-D': ('C17', 'Icmpv6Slice::icmp_type: guards rewritten as tuple match, (TYPE_ROUTER_SOLICITATION, _)', 'ICMPv6 type 133 with a non-zero code'),
+ 'C02-F': ('C02', 'Ipv6Header::skip_header_extension_in_slice: pre-check replaced by !is_ipv6_ext_header_value() (accepts ESP, EXP0, EXP1 -> unreachable!())', 'next header 50, 253 or 254 with a slice of at least 2 bytes'),
+ 'C03-E': ('C03', 'SlicedPacketCursor::slice_linux_sll: protocol type always handed to slice_ether_type as an ether type', 'SLL header with a non-Ethernet ARPHRD (FRAD, radiotap, netlink, IPGRE) and a protocol value that equals a dispatched ether type'),
+ 'C03-F': ('C03', 'Ipv6FragmentHeaderSlice::is_fragmenting_payload: masked compare that leaves one reserved bit in', 'atomic fragment header (offset 0, M = 0) with reserved bit 0b10 of byte 3 set'),
+ 'C04-E': ('C04', 'IpHeaders::from_ipv4_slice_lax: fallback branches merged with saturating_sub (total_len == header_len treated as bad length)', 'IPv4 total_len == ihl*4 with trailing bytes'),
+ 'C05-E': ('C05', 'LaxMacsecSlice::from_slice: three sub-slice blocks de-duplicated, Some(0) conflated with None', 'unmodified MACsec frame with short length exactly 2 and bytes behind the ether type'),
+ 'C05-F': ('C05', 'IpHeaders::from_ipv6_slice_lax: `!slice.is_empty()` instead of `!header_rest.is_empty()`', 'bare 40-byte IPv6 header with payload_length 0'),
+ 'C06-E': ('C06', 'Ipv6FragmentHeader::read / read_limited: new from_bytes helper takes more_fragments from mask 0b111', 'fragment header with M = 0 and a reserved bit set, read vs from_slice'),
+ 'C06-F': ('C06', 'LinuxSllHeader::read via from_bytes + from_bytes checks the ARP hardware id before the packet type', 'SLL header with an invalid packet type AND an unsupported ARP hardware id: different rejection reasons'),
+ 'C07-E': ('C07', 'LaxPacketHeaders::from_ether_type: running offset replaced by slice.len() - rest.len()', 'MACsec SecTAG with a short length, bytes behind the short-length-limited payload, and a truncated layer inside it'),
 }
 evals = {}
 for f in sorted(glob.glob(os.path.join(V, 'seeded', 'eval', '*.log'))):
